@@ -1,0 +1,14 @@
+//go:build verif
+
+package parser
+
+// VerifParserGetHook, when set by a verification harness, receives the
+// identity of the (possibly recycled) parser object each parse runs on,
+// before it is reset.
+var VerifParserGetHook func(id any)
+
+func verifParserGet(p *parser) {
+	if h := VerifParserGetHook; h != nil {
+		h(p)
+	}
+}
